@@ -138,6 +138,35 @@ theorem lookups_eq_statsSum (payer : Nat) (ixs : List Ix) (ts : List (List Nat))
   unfold nAfter
   omega
 
+/-- applying the tables one after the other removes exactly the keys of their union. -/
+theorem canFinal_flatten : ∀ (ts : List (List Nat)) (can : Nat → Bool) (k : Nat),
+    canFinal can ts k = (can k && !(ts.flatten).contains k)
+  | [], can, k => by simp [canFinal]
+  | t :: ts, can, k => by
+    rw [canFinal, canFinal_flatten ts]
+    cases can k <;> cases h1 : t.contains k <;> cases h2 : (ts.flatten).contains k <;>
+      simp_all [List.flatten_cons]
+
+/-- the `HashSet` variant computes the same account set as the per-table variant on the tables'
+union. -/
+theorem nAfter_eq_set (payer : Nat) (ixs : List Ix) (ts : List (List Nat)) :
+    nAfter payer ixs ts = (keysOf payer ixs).countP
+      (fun k => !(ts.flatten).contains k || isSigner payer ixs k || isInvoked ixs k) := by
+  unfold nAfter
+  apply countP_ext
+  intro k
+  rw [canFinal_flatten]
+  unfold can0
+  cases isInvoked ixs k <;> cases isSigner payer ixs k <;> cases (ts.flatten).contains k <;> rfl
+
+theorem usedTables_length_le (stats : List (Nat × Nat)) : (usedTables stats).length ≤ stats.length :=
+  List.length_filter_le _ _
+
+theorem tableStats_length (K : List Nat) (w : Nat → Bool) : ∀ (ts : List (List Nat)) (can : Nat → Bool),
+    (tableStats K w can ts).length = ts.length
+  | [], _ => rfl
+  | t :: ts, can => by simp [tableStats, tableStats_length K w ts]
+
 /-! ### infix helpers -/
 
 theorem infix_append_right {α} {l a : List α} (b : List α) (h : l <:+: a) : l <:+: a ++ b := by
